@@ -15,7 +15,7 @@ def run(run, tier, seed):
                 "non-trivial = >=2 mutating operations, one with --filter-ambig-as-missing; distinct by (samples, ops)")
     run.assumptions = ["sample names are passed through a file list (name<TAB>file)", "ska nk --full-info exposes the whole table"]
     tc.design_and_replay(run, tier, seed, lambda r: True, "c10",
-                         150 if tier == "quick" else 2500)
+                         700 if tier == "quick" else 4000)
     rng = random.Random(seed + 7)
     sb = skacli.Sandbox("c10")
     try:
